@@ -134,8 +134,14 @@ theorem afterPE_phase (c : Cfg) (g : St) (ha : g.again = InitPhase) :
       split
       · exact Or.inr (Or.inr (Or.inl (ret_phase _ _)))
       · split
-        · exact Or.inr (Or.inr (Or.inr (ret_phase _ _)))
-        · exact Or.inl (ret_End_halted _)
+        · split
+          · split
+            · exact Or.inr (Or.inr (Or.inr (ret_phase _ _)))
+            · exact Or.inl (ret_End_halted _)
+          · exact Or.inl (ret_Retry_halted _)
+        · split
+          · exact Or.inr (Or.inr (Or.inr (ret_phase _ _)))
+          · exact Or.inl (ret_End_halted _)
     · have hr : g.upstreamReset = false := by simpa using hr
       by_cases hd : g.direct = true
       · rw [afterPE_direct c g hc hr hd]
@@ -193,7 +199,18 @@ theorem phaseCase_phase (c : Cfg) (s : St) (ha : s.again = InitPhase) (hnf : rec
     · exact via _ (deliver_again c s) (deliver_phase c s)
   · rw [pc12 c s h]; exact via _ (sendPass_again c s) (sendPass_phase c s)
   · rw [pc13 c s h]; split
-    · exact via _ (respHeaders_again s _) (respHeaders_phase s _)
+    · split
+      · rw [afterPEd_true c (setRetry s) (by simp [setRetry, liftF])]
+        split
+        · exact Or.inl (ret_End_halted _)
+        · split
+          · split
+            · exact Or.inr (Or.inr (by rw [ret_phase]; exact Nat.le_refl _))
+            · split
+              · exact Or.inr (Or.inr (by rw [ret_phase]; decide))
+              · exact Or.inr (Or.inl rfl)
+          · exact Or.inl (ret_Retry_halted _)
+      · exact via _ (respHeaders_again s _) (respHeaders_phase s _)
     · exact stay
   · rw [pc14 c s h]; split
     · split
